@@ -83,37 +83,6 @@ theorem units_closed (a b : Exps) (ha : Exps.valid a = true) (hb : Exps.valid b 
 theorem units_equal_iff (a b : Exps) (ha : Exps.valid a = true) (hb : Exps.valid b = true) :
     a = b ↔ Exps.toQ a = Exps.toQ b := Exps.eq_iff_toQ_eq a b ha hb
 
-private theorem zipWith_add_comm : ∀ (a b : List ℚ), List.zipWith (· + ·) a b = List.zipWith (· + ·) b a
-  | [], [] => rfl
-  | [], _ :: _ => rfl
-  | _ :: _, [] => rfl
-  | x :: xs, y :: ys => by simp [zipWith_add_comm xs ys, add_comm]
-
-private theorem zipWith_add_assoc : ∀ (a b c : List ℚ),
-    List.zipWith (· + ·) (List.zipWith (· + ·) a b) c = List.zipWith (· + ·) a (List.zipWith (· + ·) b c)
-  | [], _, _ => by simp
-  | _ :: _, [], _ => by simp
-  | _ :: _, _ :: _, [] => by simp
-  | x :: xs, y :: ys, z :: zs => by simp [zipWith_add_assoc xs ys zs, add_assoc]
-
-private theorem zipWith_add_zero : ∀ (a : List ℚ) (n : Nat), a.length = n →
-    List.zipWith (· + ·) a (List.replicate n 0) = a
-  | [], _, _ => by simp
-  | x :: xs, n, h => by
-    cases n with
-    | zero => simp at h
-    | succ m => simp [List.replicate_succ, zipWith_add_zero xs m (by simpa using h)]
-
-private theorem zipWith_zero_add (a : List ℚ) (n : Nat) (h : a.length = n) :
-    List.zipWith (· + ·) (List.replicate n 0) a = a := by
-  rw [zipWith_add_comm]; exact zipWith_add_zero a n h
-
-private theorem zipWith_sub_self : ∀ (a : List ℚ), List.zipWith (· - ·) a a = List.replicate a.length 0
-  | [] => rfl
-  | x :: xs => by simp [List.replicate_succ, zipWith_sub_self xs]
-
-private theorem toQ_length (a : Exps) : (Exps.toQ a).length = a.length := by simp [Exps.toQ]
-
 /-- abelian group laws on the normalised representation itself -/
 theorem units_group_laws (a b c : Exps) (ha : Exps.valid a = true) (hb : Exps.valid b = true)
     (hc : Exps.valid c = true) :
@@ -537,11 +506,6 @@ theorem typeOf_canonical (tbl : List Exps) (ctx : List UT) (hctx : CtxCanon tbl 
     intro t _ h
     obtain ⟨te, _, rfl⟩ := (typeOf_un_inv tbl ctx e t).2.2 h
     trivial
-
-private theorem isNoUnit_of_units (u : UT) (hv : Exps.valid u.e = true)
-    (h : Exps.toQ u.e = List.replicate 7 0) : u.isNoUnit = true := by
-  simp only [UT.isNoUnit, beq_iff_eq]
-  exact (units_equal_iff _ _ hv noUnit_valid).mpr (by rw [h, noUnit_toQ])
 
 /-- operands of equal units with canonical types can always be added, subtracted, compared -/
 theorem sum_complete (tbl : List Exps) (ta tb : Ty) (va : ta.valid) (vb : tb.valid)
